@@ -10,7 +10,7 @@ from rsrc import ExtractError
 
 VERIF = os.path.dirname(os.path.dirname(os.path.abspath(__file__)))
 TEMPLATES = {
-    'l2': os.path.join(VERIF, 'verus', 'l2.vt'),
+    'l2': os.environ.get('VERIF_L2_TEMPLATE', os.path.join(VERIF, 'verus', 'l2.vt')),
     'iter': os.path.join(VERIF, 'verus', 'iter.vt'),
     'memsize': os.path.join(VERIF, 'verus', 'memsize.vt'),
     'hbcap': os.path.join(VERIF, 'verus', 'hbcap.vt'),
